@@ -287,6 +287,34 @@ func C17(c *core.Ctx) {
 			}
 			resps = append(resps, r)
 		}
+		// a response sent by a small helper with a status of its own (sendFaceGone(…): 410):
+		// every call of that helper in the handler is a response with that status
+		for _, r := range append([]resp{}, resps...) {
+			h := r.call.Parent()
+			if h == fn || h.Parent() != nil || !r.known {
+				continue
+			}
+			nResp := 0
+			for _, r2 := range resps {
+				if r2.call.Parent() == h {
+					nResp++
+				}
+			}
+			if nResp != 1 {
+				continue
+			}
+			for _, cs := range p.Callers(h) {
+				inReach := false
+				for _, g := range core.Reach(fn) {
+					if cs.Parent() == g {
+						inReach = true
+					}
+				}
+				if inReach {
+					resps = append(resps, resp{call: cs, status: r.status, known: true})
+				}
+			}
+		}
 		// state mutators: not the configuration of a transport that this very function
 		// constructed and has not registered yet
 		sl2 := &core.Slicer{P: p}
